@@ -3,13 +3,15 @@
    known findings of known_findings.json).  PROVED, for all inputs of the class: the round trip when a and b have
    the same scheme and authority, absolute dot-free paths without an empty segment before the last one and a
    literal common directory prefix (C15_round_trip_partial), and when they differ in scheme or in authority
-   (C15_other_scheme, C15_other_authority); with percent-respelled common prefixes (C15_round_trip_respelled_partial)
+   (C15_other_scheme, C15_other_authority); with percent-respelled common prefixes (C15_round_trip_respelled_partial),
+   with authorities that are only == (C15_round_trip_authority_respelled_partial)
    and in the two "./"-shield shapes (C15_round_trip_shield_partial) the round trip up to ==.  Outside these
-   hypotheses (dot segments or inner empty segments in the inputs, authority on one side only, relative inputs) the
+   hypotheses (dot segments or inner empty segments in the inputs, authority on one side only, relative inputs: the
+   recorded classes; the shield shapes combined with a respelled authority) the
    property is carried by the correspondence run and the implementation's own == on every generated pair. *)
 From Coq Require Import List NArith Bool Arith.
 Import ListNotations.
-Require Import V.Regex V.Parse V.ParseProofs V.PathSpec V.Splice V.Setters V.Push V.Reference V.Cmp V.ResolveProofs4 V.C16Proofs V.RelProofs V.RelProofs2 V.RelProofs3.
+Require Import V.Regex V.Parse V.ParseProofs V.PathSpec V.Splice V.Setters V.Push V.Reference V.Cmp V.ResolveProofs4 V.C16Proofs V.RelProofs V.RelProofs2 V.RelProofs3 V.RelProofs4.
 Local Open Scope nat_scope.
 
 Definition round_trip (a b : str) : option bool :=
@@ -63,6 +65,32 @@ Theorem C15_round_trip_respelled_partial : forall (pa pb : parts) (s : str) (ca 
                   resolve (compose pr) (compose pb) = Some back /\ eq_ref back (compose pa) = Some true.
 Proof. exact round_trip_respelled_partial. Qed.
 Print Assumptions C15_round_trip_respelled_partial.
+
+(* AUTHORITIES EQUAL ONLY UNDER == : the authorities of a and b need not be literally equal, only == in both directions
+   (auth_match: eq_authority, what relative_to tests; symmetric for valid authorities by C07).  relative_to returns the
+   same reference; resolving it gives a with b's spelling of the authority and of the common prefix, == a. *)
+Theorem C15_round_trip_authority_respelled_partial : forall (pa pb : parts) (s : str) (ca cb ss bs : list str),
+  wf_parts pa -> wf_parts pb -> p_scheme pa = Some s -> p_scheme pb = Some s ->
+  auth_match (p_authority pa) (p_authority pb) ->
+  is_abs (p_path pa) = true -> is_abs (p_path pb) = true ->
+  segs (p_path pa) = ca ++ ss -> removelast (segs (p_path pb)) = cb ++ bs ->
+  plain (segs (p_path pa)) -> plain (segs (p_path pb)) -> no_empty_but_last (p_path pa) -> no_empty_but_last (p_path pb) ->
+  Forall2 seg_eq cb ca -> strip_common (ca ++ ss) (cb ++ bs) = Some (ss, bs) ->
+  ss <> [] ->
+  (bs = [] -> match ss with x :: _ => x <> [] /\ colon_first x = false | [] => False end) ->
+  (p_query pa = None -> p_fragment pa <> None -> p_path pb = render true (cb ++ ss) -> p_query pb = None) ->
+  Forall (fun x => dec x <> None) ss -> (forall x, p_query pa = Some x -> dec x <> None) -> (forall x, p_fragment pa = Some x -> dec x <> None) ->
+  exists pr back, wf_parts pr /\ relative_to (compose pa) (compose pb) = Some (compose pr) /\
+                  resolve (compose pr) (compose pb) = Some back /\ eq_ref back (compose pa) = Some true.
+Proof. exact round_trip_auth_respelled_partial. Qed.
+Print Assumptions C15_round_trip_authority_respelled_partial.
+(* satisfiable: h://%68/a/b/c?q relative to h://h/a/x is b/c?q *)
+Theorem C15_round_trip_authority_instance :
+  relative_to (compose ex_a2) (compose ex_b) = Some [98;47;99;63;113]%N /\
+  exists pr back, wf_parts pr /\ relative_to (compose ex_a2) (compose ex_b) = Some (compose pr) /\
+                  resolve (compose pr) (compose ex_b) = Some back /\ eq_ref back (compose ex_a2) = Some true.
+Proof. exact round_trip_auth_instance. Qed.
+Print Assumptions C15_round_trip_authority_instance.
 
 (* THE SHIELD SHAPES: b's directory is a (respelled) prefix of a's path and the first remaining segment of a is empty
    or has a ':' -- relative_to then writes "./" in front (sh_ref: path "./" ++ remaining segments, a's query and
